@@ -132,9 +132,16 @@ class EvalDeriv(BaseOneIndex):
                 points, orders, center, angmom_comps, alphas, prim_coeffs, norm_prim_cart
             )
         elif deriv_type == "direct":
+            if np.any(orders > 2):
+                raise ValueError(
+                    "The 'direct' derivative implementation only supports orders up to 2. Use "
+                    "`deriv_type='general'` for higher orders."
+                )
             output = _eval_first_second_order_deriv_contractions(
                 points, orders, center, angmom_comps, alphas, prim_coeffs, norm_prim_cart
             )
+        else:
+            raise ValueError("`deriv_type` must be one of 'general' or 'direct'.")
         return output
 
 
